@@ -1,1 +1,286 @@
-pub fn run(_a: &vcommon::Args) {}
+//! C07 — Issue and patch actions obey the authorization rules.
+//!
+//! Histories are generated incrementally; after every change the real evaluator is run on the
+//! prefix. When the newest change was applied last (so the previous prefix state is exactly the
+//! state it was applied to) the field-wise difference of the two states is attributed to the
+//! change's author and compared with the author's role. The oracle never consults
+//! `authorization()`.
+use radicle::cob::issue::Issue;
+use radicle::cob::patch::Patch;
+use vcommon::{json, Args, Reporter, Rng, Value};
+
+use crate::gen::{IssueGen, Knobs, PatchGen};
+use crate::world::{eval, strip, Snap, World};
+
+struct Who {
+    key: String, // z6Mk...
+    did: String, // did:key:z6Mk...
+    delegate: bool,
+    object_author: bool,
+}
+
+/// Compare two thread JSON objects; returns a violation description if an existing comment was
+/// edited or redacted by someone who is neither its author nor a delegate.
+fn thread_rule(prev: &Value, cur: &Value, who: &Who, rep: &mut Reporter, ctx: &str) -> Option<String> {
+    let (Some(pc), Some(cc)) = (prev["comments"].as_object(), cur["comments"].as_object()) else { return None };
+    for (cid, pv) in pc {
+        if pv.is_null() {
+            continue;
+        }
+        let cv = cc.get(cid).unwrap_or(&Value::Null);
+        let author = pv["author"].as_str().unwrap_or("");
+        let privileged = who.delegate || author == who.key;
+        if cv.is_null() {
+            rep.count(&format!("observed.{ctx}comment-redacted"));
+            if !privileged {
+                return Some(format!("{ctx}comment-redacted-by-non-author"));
+            }
+        } else if cv["edits"] != pv["edits"] || cv["body"] != pv["body"] {
+            rep.count(&format!("observed.{ctx}comment-edited"));
+            if !privileged {
+                return Some(format!("{ctx}comment-edited-by-non-author"));
+            }
+        }
+    }
+    None
+}
+
+fn issue_rules(prev: &Value, cur: &Value, who: &Who, rep: &mut Reporter) -> Option<String> {
+    for f in ["assignees", "labels"] {
+        if prev[f] != cur[f] {
+            rep.count(&format!("observed.issue.{f}-changed"));
+            if !who.delegate {
+                return Some(format!("issue/{f}-changed-by-non-delegate"));
+            }
+        }
+    }
+    for f in ["title", "state"] {
+        if prev[f] != cur[f] {
+            rep.count(&format!("observed.issue.{f}-changed"));
+            if !who.delegate && !who.object_author {
+                return Some(format!("issue/{f}-changed-by-non-author"));
+            }
+        }
+    }
+    thread_rule(&prev["thread"], &cur["thread"], who, rep, "issue/").map(|s| s)
+}
+
+fn patch_rules(prev: &Value, cur: &Value, who: &Who, rep: &mut Reporter) -> Option<String> {
+    for f in ["assignees", "labels", "merges"] {
+        if prev[f] != cur[f] {
+            rep.count(&format!("observed.patch.{f}-changed"));
+            if !who.delegate {
+                return Some(format!("patch/{f}-changed-by-non-delegate"));
+            }
+        }
+    }
+    for f in ["title", "target", "state"] {
+        if prev[f] != cur[f] {
+            rep.count(&format!("observed.patch.{f}-changed"));
+            if !who.delegate && !who.object_author {
+                return Some(format!("patch/{f}-changed-by-non-author"));
+            }
+        }
+    }
+    let (Some(pr), Some(cr)) = (prev["revisions"].as_object(), cur["revisions"].as_object()) else { return None };
+    for (rid, pv) in pr {
+        if pv.is_null() {
+            continue;
+        }
+        let cv = cr.get(rid).unwrap_or(&Value::Null);
+        if cv.is_null() {
+            // whole revision redacted (by its author or a delegate per heartwood's rules; revisions
+            // are outside the statement): nested comments/reviews disappear with it
+            rep.count("observed.patch.revision-redacted");
+            continue;
+        }
+        if let Some(v) = thread_rule(&pv["discussion"], &cv["discussion"], who, rep, "patch/revision-") {
+            return Some(v);
+        }
+        let (Some(pvs), Some(cvs)) = (pv["reviews"].as_object(), cv["reviews"].as_object()) else { continue };
+        for (reviewer, prv) in pvs {
+            let author_did = prv["author"]["id"].as_str().unwrap_or("");
+            let privileged = who.delegate || author_did == who.did || *reviewer == who.key;
+            match cvs.get(reviewer) {
+                None => {
+                    rep.count("observed.patch.review-redacted");
+                    if !privileged {
+                        return Some("patch/review-redacted-by-non-author".into());
+                    }
+                }
+                Some(crv) => {
+                    if crv["id"] != prv["id"] {
+                        // redacted and replaced by a new review of the same reviewer
+                        rep.count("observed.patch.review-replaced");
+                        if !privileged {
+                            return Some("patch/review-redacted-by-non-author".into());
+                        }
+                        continue;
+                    }
+                    if crv["summary"] != prv["summary"] || crv["verdict"] != prv["verdict"] || crv["labels"] != prv["labels"] {
+                        rep.count("observed.patch.review-edited");
+                        if !privileged {
+                            return Some("patch/review-edited-by-non-author".into());
+                        }
+                    }
+                    if let Some(v) = thread_rule(&prv["comments"], &crv["comments"], who, rep, "patch/review-") {
+                        return Some(v);
+                    }
+                }
+            }
+        }
+    }
+    None
+}
+
+#[allow(clippy::too_many_arguments)]
+fn step_check(
+    rep: &mut Reporter,
+    w: &World,
+    kind: &str,
+    hist_json: &dyn Fn() -> Value,
+    op_idx: usize,
+    op_oid: radicle::git::Oid,
+    actor: usize,
+    object_author: usize,
+    prev: &Snap,
+    cur: &Snap,
+    kinds: &[&'static str],
+) -> bool {
+    rep.eval();
+    let key = w.actors[actor].public_key().to_string();
+    let who = Who { did: format!("did:key:{key}"), key, delegate: actor < w.ndelegates, object_author: actor == object_author };
+    let role = if who.delegate { "delegate" } else if who.object_author { "object-author" } else { "other" };
+    let accepted = cur.entries.contains(&op_oid);
+    for k in kinds {
+        rep.count(&format!("fed.{kind}.{k}.by-{role}"));
+        if accepted {
+            rep.count(&format!("accepted.{kind}.{k}"));
+        }
+    }
+    let a = strip(&prev.state, &["timeline"]);
+    let b = strip(&cur.state, &["timeline"]);
+    if !accepted {
+        rep.count("changes-rejected");
+        // rejected: no effect whatsoever (including bookkeeping)
+        if cur.entries != prev.entries {
+            rep.violation(&format!("C07/{kind}/rejected-change-altered-history"), json!({"op": op_idx, "history": hist_json()}));
+            return false;
+        }
+        if cur.state != prev.state {
+            rep.violation(&format!("C07/{kind}/rejected-change-had-effect"), json!({"op": op_idx, "before": a, "after": b, "history": hist_json()}));
+            return false;
+        }
+        return true;
+    }
+    rep.count("changes-accepted");
+    let applied_last = cur.order.last() == Some(&op_oid) && cur.entries.len() == prev.entries.len() + 1;
+    if !applied_last {
+        rep.count("skipped.change-not-applied-last");
+        return true;
+    }
+    rep.count("attributed.change-applied-last");
+    if !who.delegate {
+        rep.count("attributed.by-non-delegate");
+    }
+    let v = if kind == "issue" { issue_rules(&a, &b, &who, rep) } else { patch_rules(&a, &b, &who, rep) };
+    if let Some(v) = v {
+        rep.violation(&format!("C07/{v}"), json!({"op": op_idx, "actor": actor, "role": role, "before": a, "after": b, "history": hist_json()}));
+        return false;
+    }
+    true
+}
+
+fn one(rep: &mut Reporter, w: &World, seed: u64, patch: bool, thorough: bool) {
+    let mut rng = Rng::new(seed);
+    let knobs = Knobs {
+        nops: 5 + rng.usize(if thorough { 26 } else { 11 }),
+        ts_mode: rng.below(3) as u8,
+        p_multi_reject: 0,
+        p_bad_sig: 10,
+        p_branch: 150,
+        p_child_of_doomed: 0,
+        unprivileged: true,
+    };
+    let ns: Vec<usize> = (0..24).collect();
+    if !patch {
+        let mut g = IssueGen::new(w, &mut rng, &knobs);
+        w.set_refs(&g.hist.typename, &g.hist.id, &g.hist.prefix_tips(1), &ns);
+        let Ok(Some(mut prev)) = eval::<Issue>(w, &g.hist.typename, &g.hist.id) else {
+            rep.inconclusive("root issue does not evaluate", json!({}));
+            return;
+        };
+        for _ in 1..knobs.nops {
+            let i = g.step(w, &mut rng);
+            w.set_refs(&g.hist.typename, &g.hist.id, &g.hist.prefix_tips(i + 1), &ns);
+            let cur = match eval::<Issue>(w, &g.hist.typename, &g.hist.id) {
+                Ok(Some(c)) => c,
+                other => {
+                    rep.inconclusive("issue evaluation failed", json!({"r": format!("{other:?}")}));
+                    return;
+                }
+            };
+            let op = g.hist.ops[i].clone();
+            if !cur.entries.contains(&op.oid) {
+                g.mark_doomed(i);
+            }
+            let hj = || g.hist.json(w);
+            if !step_check(rep, w, "issue", &hj, i, op.oid, op.actor, g.hist.author, &prev, &cur, &op.kinds) {
+                break;
+            }
+            prev = cur;
+        }
+        if g.hist.ops.len() > 4 {
+            rep.nontrivial(vcommon::fnv(g.hist.id.to_string().as_bytes()));
+        }
+        if rep.wants_sample() && g.hist.ops.len() > 8 {
+            rep.sample(json!({"history": g.hist.json(w), "final_state": prev.state}));
+        }
+        w.clear_refs(&g.hist.typename, &g.hist.id);
+    } else {
+        let mut g = PatchGen::new(w, &mut rng, &knobs);
+        w.set_refs(&g.hist.typename, &g.hist.id, &g.hist.prefix_tips(1), &ns);
+        let Ok(Some(mut prev)) = eval::<Patch>(w, &g.hist.typename, &g.hist.id) else {
+            rep.inconclusive("root patch does not evaluate", json!({}));
+            return;
+        };
+        for _ in 1..knobs.nops {
+            let i = g.step(w, &mut rng);
+            w.set_refs(&g.hist.typename, &g.hist.id, &g.hist.prefix_tips(i + 1), &ns);
+            let cur = match eval::<Patch>(w, &g.hist.typename, &g.hist.id) {
+                Ok(Some(c)) => c,
+                other => {
+                    rep.inconclusive("patch evaluation failed", json!({"r": format!("{other:?}")}));
+                    return;
+                }
+            };
+            let op = g.hist.ops[i].clone();
+            if !cur.entries.contains(&op.oid) {
+                g.mark_doomed(i);
+            }
+            let hj = || g.hist.json(w);
+            if !step_check(rep, w, "patch", &hj, i, op.oid, op.actor, g.hist.author, &prev, &cur, &op.kinds) {
+                break;
+            }
+            prev = cur;
+        }
+        if g.hist.ops.len() > 4 {
+            rep.nontrivial(vcommon::fnv(g.hist.id.to_string().as_bytes()));
+        }
+        w.clear_refs(&g.hist.typename, &g.hist.id);
+    }
+}
+
+pub fn run(args: &Args) {
+    let mut rep = Reporter::new("C07");
+    let n = args.budget(2_400, 24_000);
+    let mut w = World::new(2, 6, 1, "c07");
+    for k in 0..n {
+        if k % 40 == 39 {
+            let mut r = Rng::new(args.case_seed(k) ^ 0x77);
+            w = World::new(1 + r.usize(3), 6, 1, "c07");
+        }
+        one(&mut rep, &w, args.case_seed(k), k % 2 == 1, args.thorough);
+    }
+    rep.finish();
+}
